@@ -23,6 +23,17 @@ class FaultStop(StopIteration):
     """the same injected fault as an instance of a StopIteration subclass (an exception class iterator plumbing treats specially)"""
 
 
+class FaultMulti(KeyError, IndexError, ValueError, TypeError, ZeroDivisionError, AssertionError, RuntimeError):
+    """the same injected fault as an instance of the exception classes library code commonly catches for its own purposes (a cache miss, a missing
+    key, a failed conversion): an `except KeyError:` around more than the lookup swallows a task's failure (C18: the exception propagates)"""
+
+    def __str__(self):
+        return Exception.__str__(self)
+
+
+FLAVOURS = (Fault, FaultStop, FaultMulti)
+
+
 class Uncovered(Exception):
     """Implementation object the projection has no spec counterpart for (reported, never a violation)."""
 
@@ -35,7 +46,7 @@ class Ctl:
         self.writes = []        # (loc-ish id, value) in order
         self.armed = False      # raise Fault on the next write
         self.fail_at_write = None   # absolute index of the write (within the current call) that fails
-        self.stop_flavour = False   # raise FaultStop instead of Fault
+        self.stop_flavour = 0       # index into FLAVOURS: which exception class the injected fault is an instance of
 
     def on_write(self, where):
         idx = len(self.writes)
@@ -43,7 +54,7 @@ class Ctl:
             self.armed = False
             self.fail_at_write = None
             self.writes.append((where, "FAULT"))
-            raise (FaultStop if self.stop_flavour else Fault)(str(where))
+            raise FLAVOURS[int(self.stop_flavour)](str(where))
         self.writes.append((where, None))
 
 
@@ -130,6 +141,14 @@ def universe(name, keys="plain"):
         loc = {k: _mk("s", ("item", K[k])) for k in "abcd"}
         loc["f:total"] = _mk("f", ("attr", "total"))
         leaves = list("abcd")
+    elif name == "U5":   # flat a, b, c: b and c can read each other in either direction (narrowing + reversal histories, explored deep)
+        loc = {k: _mk("s", ("item", K[k])) for k in "abc"}
+        loc["f:total"] = _mk("f", ("attr", "total"))
+        leaves = list("abc")
+    elif name == "U6":   # five flat locations, sums over every pair: long random walks
+        loc = {k: _mk("s", ("item", K[k])) for k in "abcdx"}
+        loc["f:total"] = _mk("f", ("attr", "total"))
+        leaves = list("abcdx")
     else:
         raise KeyError(name)
     return {"name": name, "keys": keys, "loc": loc, "leaves": leaves, "label": "s",
@@ -530,7 +549,7 @@ def execute(w, lab, fault=None):
             runs.append(abs_tid(w.uni, t))
         except Uncovered:
             runs.append(repr(t))
-    if isinstance(exc, FaultStop):
+    if isinstance(exc, (FaultStop, FaultMulti)):
         return {"exc": exc, "excname": "Fault", "runs": runs, "writes": list(w.ctl.writes), **extra}
     return {"exc": exc, "excname": type(exc).__name__ if exc is not None else None, "runs": runs, "writes": list(w.ctl.writes), **extra}
 
